@@ -113,16 +113,26 @@ class H1(Scenario):
     mode = "regular"
     msgs = [("c2s", "request"), ("s2c", "response"), ("c2s", "request"), ("s2c", "response")]
 
-    def __init__(self, pipelined=False):
+    def __init__(self, pipelined=False, stream=False):
         super().__init__()
         self.pipelined = pipelined
+        self.stream = stream  # the addon streams response bodies; the origin then answers chunked
         self.answered = {}
 
     def req(self, i):
         return b"GET http://example.com/" + mk(i) + b" HTTP/1.1\r\nHost: example.com\r\n\r\n"
 
     def resp(self, i):
-        return b"HTTP/1.1 200 OK\r\nContent-Length: 4\r\n\r\n" + mk(i)
+        return http_response(i, self.stream)
+
+    def token(self, w, i):
+        """what must not change while message i is held / after it was killed: HTTP/1 is sequential, so no byte at all
+        may be written to the destination side"""
+        d = self.msgs[i][0]
+        return sum(len(e.w.data) for e in w.servers) if d == "c2s" else len(w.client.w.data)
+
+    def replace(self, i, data):
+        replace_message(i, data)
 
     def script(self):
         if self.pipelined:
@@ -165,6 +175,10 @@ class H1(Scenario):
             for i in (1, 3):
                 if mk(i) in (data.response.raw_content or b""):
                     return i
+            # a streamed body is not kept on the flow: the response belongs to the request it answers
+            for i in (1, 3):
+                if mk(i - 1) in data.request.data.path or ed(i - 1) in data.request.data.path:
+                    return i
         return None
 
     def edit(self, i, data):
@@ -177,6 +191,21 @@ class H1(Scenario):
         if direction == "c2s":
             return b"".join(e.w.data for e in w.servers)
         return w.client.w.data
+
+
+def http_response(i, chunked):
+    if chunked:
+        return b"HTTP/1.1 200 OK\r\nTransfer-Encoding: chunked\r\n\r\n4\r\n" + mk(i) + b"\r\n0\r\n\r\n"
+    return b"HTTP/1.1 200 OK\r\nContent-Length: 4\r\n\r\n" + mk(i)
+
+
+def replace_message(i, data):
+    """edit by replacing the whole message object (as `flow.response = Response.make(...)` in an addon or the
+    web UI's PUT do) instead of editing it in place"""
+    if i in (0, 2):
+        data.request = http.Request.make("GET", "http://example.com/" + ed(i).decode())
+    else:
+        data.response = http.Response.make(200, ed(i))
 
 
 class Raw(Scenario):
@@ -370,8 +399,9 @@ class H2(Scenario):
     # stream 1: request 0 / response 1; stream 3: request 2 / response 3
     msgs = [("c2s", "request"), ("s2c", "response"), ("c2s", "request"), ("s2c", "response")]
 
-    def __init__(self):
+    def __init__(self, stream=False):
         super().__init__()
+        self.stream = stream
         self.c = h2.connection.H2Connection(h2.config.H2Configuration(client_side=True, header_encoding="utf-8"))
         self.c.initiate_connection()
         self.preface_sent = False
@@ -436,10 +466,20 @@ class H2(Scenario):
             return [(w.client, self.c.data_to_send())]
         e = self.target(w, i)
         self.answered[id(e)] = self.answered.get(id(e), 0) + 1
-        return [(e, b"HTTP/1.1 200 OK\r\nContent-Length: 4\r\n\r\n" + mk(i))]
+        return [(e, http_response(i, self.stream))]
 
     which = H1.which
     edit = H1.edit
+    replace = H1.replace
+
+    def token(self, w, i):
+        """streams are independent: what the client has of *this* stream (body bytes, END_STREAM seen) must not change
+        while its response is held / after it was killed; requests are judged by their markers only"""
+        if self.msgs[i][0] == "c2s":
+            return None
+        self.pump(w)
+        sid = self.sid(i)
+        return [len(self.bodies.get(sid, b"")), sid in self.ended]
 
     def dest(self, w, direction):
         self.pump(w)
@@ -460,32 +500,44 @@ SCENARIOS = {
     "dns": lambda: Dns(),
     "ws": lambda: Ws(),
     "h2": lambda: H2(),
+    # the addon streams response bodies (flow.response.stream = True in responseheaders); chunked origin responses
+    "h1-stream": lambda: H1(False, stream=True),
+    "h2-stream": lambda: H2(stream=True),
 }
 HTTP_LIKE = ("http1", "http2")
 
 
 # ------------------------------------------------------------------------------------ execution
 class Exec:
-    def __init__(self, scen, pol, eager=True):
-        """pol: tuple over the scenario's messages of '-' (pass), 'i' (intercept in the hook), 'k' (addon kills in the hook)"""
-        self.scen, self.pol, self.eager = scen, tuple(pol), eager
+    def __init__(self, scen, pol, eager=True, edit="inplace"):
+        """pol: tuple over the scenario's messages of '-' (pass), 'i' (intercept in the hook), 'k' (addon kills in the hook);
+        edit: the user's edit changes the message in place, or replaces the whole request / response object"""
+        self.scen, self.pol, self.eager, self.edit = scen, tuple(pol), eager, edit
 
     def run(self, prefix, t: Tally, verbose=False):
         sc = SCENARIOS[self.scen]()
-        held = []  # [msg index, flow, state]
+        streaming = bool(getattr(sc, "stream", False))
+        held = []  # [msg index, flow, state, destination token when it was intercepted]
         log = []  # what happened to each message: (index, "held" | "resumed" | "edited" | "killed" | "killed_in_hook")
         pend = {}  # id(flow) -> number of handle_hook calls in progress (observation wrapper)
+        kill_tokens = {}  # msg index -> destination token at the moment of the kill
+
+        def token(i):
+            return sc.token(w, i) if hasattr(sc, "token") else None
 
         def policy(name, data, world):
+            if streaming and name == "responseheaders" and isinstance(data, http.HTTPFlow):
+                data.response.stream = True
             i = sc.which(name, data)
             if i is None:
                 return
             p = self.pol[i]
             if p == "i":
                 data.intercept()  # the Intercept addon's effect
-                held.append([i, data, "held"])
+                held.append([i, data, "held", token(i)])
                 log.append((i, "held"))
             elif p == "k" and data.killable:
+                kill_tokens[i] = token(i)
                 data.kill()
                 log.append((i, "killed_in_hook"))
 
@@ -507,8 +559,13 @@ class Exec:
         choices, widths = [], []
         trace = []
         feats0 = {"proto": sc.proto}
-        case = {"scen": self.scen, "pol": "".join(self.pol), "eager": self.eager, "choices": None}
-        results = {"ends_flow": []}
+        case = {"scen": self.scen, "pol": "".join(self.pol), "eager": self.eager, "edit": self.edit, "choices": None}
+        results = {"ends_flow": [], "kill_tokens": kill_tokens}
+
+        def body_already_sent(i):
+            # a streamed response body has been forwarded before the response hook runs: only completing the
+            # message (terminating chunk / END_STREAM / trailers) is still ahead
+            return streaming and sc.msgs[i][0] == "s2c"
 
         def choose(n):
             i = prefix[len(choices)] if len(choices) < len(prefix) else 0
@@ -544,7 +601,8 @@ class Exec:
                         acts.append(("resume", j))
                     if h[1].killable:  # what console / web check before offering kill
                         acts.append(("kill", j))
-                    acts.append(("edit", j))
+                    if not body_already_sent(h[0]):
+                        acts.append(("edit", j))
                 if not acts:
                     break
                 a = acts[choose(len(acts))] if len(acts) > 1 else acts[0]
@@ -562,10 +620,14 @@ class Exec:
                         w.act(f.resume)
                     elif a[0] == "edit":
                         h[2] = "edited"
-                        sc.edit(h[0], f)
+                        if self.edit == "replace":
+                            sc.replace(h[0], f)
+                        else:
+                            sc.edit(h[0], f)
                         w.act(f.resume)
                     else:
                         h[2] = "killed"
+                        kill_tokens[h[0]] = token(h[0])
                         w.act(f.kill)
                         results["ends_flow"].append((h[0], pend.get(id(f), 0) == 0, f))
                     log.append((h[0], h[2]))
@@ -575,8 +637,13 @@ class Exec:
                     if h[2] == "held":
                         d, hook = sc.msgs[h[0]]
                         got = sc.dest(w, d)
-                        t.judge("nothing_sent_while_intercepted", mk(h[0]) not in got and ed(h[0]) not in got,
-                                dict(feats0, dir=d, hook=hook), dict(case, choices=list(choices)), "marker of the held message absent at the destination", got[-200:])
+                        if not body_already_sent(h[0]):
+                            t.judge("nothing_sent_while_intercepted", mk(h[0]) not in got and ed(h[0]) not in got,
+                                    dict(feats0, dir=d, hook=hook), dict(case, choices=list(choices)), "marker of the held message absent at the destination", got[-200:])
+                        if h[3] is not None:
+                            now = token(h[0])
+                            t.judge("nothing_sent_while_intercepted", now == h[3], dict(feats0, dir=d, hook=hook, streamed=streaming, by="progress"), dict(case, choices=list(choices)),
+                                    "the destination has received nothing more for this flow since it was intercepted", {"then": h[3], "now": now, "tail": got[-80:]})
                 # multiplexed protocols: with one stream held, the other stream's exchange completes
                 if sc.multiplexed:
                     self.check_progress(w, sc, held, script, done_steps, dict(case, choices=list(choices)), t)
@@ -639,7 +706,14 @@ class Exec:
                     t.judge("resume_forwards_once", n_edit == 1, dict(f, edited=True, count=min(n_edit, 2)), case, "exactly one copy of the edited message", {"orig": n_orig, "edited": n_edit})
             elif what in ("killed", "killed_in_hook"):
                 kind = "user_on_intercepted" if what == "killed" else "addon_in_hook"
-                t.judge("kill_sends_nothing_further", n_orig + n_edit == 0, dict(f, kill=kind), case, "nothing of the killed message at the destination", {"orig": n_orig, "edited": n_edit, "tail": got[-120:]})
+                streamed = bool(getattr(sc, "stream", False)) and d == "s2c"
+                if not streamed:  # (a streamed body was forwarded before the response hook, i.e. before the kill)
+                    t.judge("kill_sends_nothing_further", n_orig + n_edit == 0, dict(f, kill=kind), case, "nothing of the killed message at the destination", {"orig": n_orig, "edited": n_edit, "tail": got[-120:]})
+                then = results["kill_tokens"].get(i)
+                if then is not None:
+                    now = sc.token(w, i)
+                    t.judge("kill_sends_nothing_further", now == then, dict(f, kill=kind, streamed=streamed, by="progress"), case,
+                            "the destination receives nothing more for the flow after the kill (no rest of the body, no terminating chunk / END_STREAM)", {"at_kill": then, "at_end": now, "tail": got[-80:]})
         for i, ended, f in results["ends_flow"]:
             d, hook = sc.msgs[i]
             ff = dict(feats0, dir=d, hook=hook)
@@ -682,10 +756,19 @@ def policies(n, tier):
 
 def specs(tier):
     out = []
+    quick = tier == "quick"
     for scen in SCENARIOS:
         n = len(SCENARIOS[scen]().msgs)
         for pol in policies(n, tier):
-            out.append((scen, pol, True))
+            touched = sum(1 for c in pol if c != "-")
+            if scen.endswith("-stream"):
+                # streaming only changes what happens around the response hooks
+                if (pol[1] == "-" and pol[3] == "-") or (quick and touched > 2):
+                    continue
+            out.append((scen, pol, True, "inplace"))
+            # the user's edit replaces the whole request / response object instead of changing it in place
+            if scen in ("h1", "h2") and "i" in pol and not (quick and touched > 2):
+                out.append((scen, pol, True, "replace"))
     return out
 
 
@@ -697,10 +780,10 @@ def run(ctx):
     bound = ctx.pick(3, 4)
     sp = specs(ctx.tier)
     ctx.bounds = {"scenarios": list(SCENARIOS), "policies": "per message one of - (pass), i (intercept), k (kill in hook); %s" % ctx.pick("<= 3 not passed, <= 1 k", "any number not passed, <= 2 k"),
-                  "user_actions": ["resume", "kill", "edit+resume"], "deviation_bound": bound, "specs": len(sp)}
+                  "user_actions": ["resume", "kill", "edit+resume (in place; for h1/h2 also by replacing the message object)"], "deviation_bound": bound, "specs": len(sp)}
     ctx.log("%d specs, deviation bound %d" % (len(sp), bound))
     mbfs.dfs_dev_many(sp, make_exec, bound, ctx.tally, log=ctx.log)
 
 
 def replay(case, t, verbose=False):
-    Exec(case["scen"], case["pol"], bool(case["eager"])).run(tuple(case["choices"]), t, verbose=verbose)
+    Exec(case["scen"], case["pol"], bool(case["eager"]), case.get("edit", "inplace")).run(tuple(case["choices"]), t, verbose=verbose)
